@@ -16,9 +16,15 @@ implies every CNF clause (exact, by one memoised walk of the diagram under the c
 corner valuations of the clause), the rebuilt Bdd is the operand, the observed clause list denotes the operand
 (`mkDnf`/`mkCnf` of the model on the OBSERVED list is the operand — sound by `mk_dnf_spec`/`mk_cnf_spec`), and
 the library's own verdicts (the `bits` field) say the same.
-Valid non-canonical operands: to_dnf/to_cnf must succeed and the rebuild must be canonical with the same function;
-to_optimized_dnf must panic exactly when some decision node carries a variable the (satisfiable) function ignores
-(`opt_dnf_refuses_spurious_support` / `mk_dnf_to_opt_dnf_canon`), and otherwise behave as above.
+Outside the property's quantifier the predicate is OFF and the verdict is agreement with the model only (OK / DIS):
+  * clauses that fix a variable `≥ num_vars` (mk_dnf, mk_cnf, both clause constructors) — whatever is observed
+    (a Bdd, `panic`, `hang`);
+  * a valid non-canonical operand ("rebuild == b" cannot hold) on which an extraction panics or hangs — this
+    includes the operands on which to_optimized_dnf refuses (`opt_dnf_refuses_spurious_support`, tag `opt-refuses`):
+    the model predicts the panic, a change that makes the code work there is a disagreement, not a failure.
+  When the extractions of a non-canonical operand do return, the function-preservation clauses stay on (the lists
+  denote the operand, the rebuild is canonical with the same function).
+The order of the clauses and the choice among several valid optimised DNFs are never part of the predicate.
 Clauses that mention a variable `≥ num_vars` are outside the property: only model agreement is checked.
 -/
 namespace B.Drive.C10
@@ -209,7 +215,7 @@ def handle (key : String) (ins obs : List String) : Verdict :=
       let c := parseClause cl
       let model := showOutArr (mkConjClause n c)
       let ok := inRange n c
-      let fail := if !ok then (if res == "panic" then none else some "no-panic-on-foreign-variable") else
+      let fail := if !ok then none else
         match parseArr? res with
         | none => some ("outcome-on-valid-clause:" ++ res)
         | some A => checkBuilt n A (conjAt n c) key
@@ -222,7 +228,7 @@ def handle (key : String) (ins obs : List String) : Verdict :=
       let c := parseClause cl
       let model := showOutArr (mkDisjClause n c)
       let ok := inRange n c
-      let fail := if !ok then (if res == "panic" then none else some "no-panic-on-foreign-variable") else
+      let fail := if !ok then none else
         match parseArr? res with
         | none => some ("outcome-on-valid-clause:" ++ res)
         | some A => checkBuilt n A (disjAt n c) key
@@ -247,7 +253,8 @@ def handle (key : String) (ins obs : List String) : Verdict :=
       let od := parseObsClauses dnf
       let oc := parseObsClauses cnf
       let semFail : List (Option String) :=
-        if n ≤ maxTT then
+        if !canonB && (od.isNone || oc.isNone) then []   -- outside the quantifier: agreement only
+        else if n ≤ maxTT then
           let tb := ttOf A n
           [ (match od with
               | none => some "to_dnf:panic"
@@ -277,9 +284,9 @@ def handle (key : String) (ins obs : List String) : Verdict :=
                   if showOutArr (mkCnf n cs) == b then none else some "to_cnf:function"]),
             (if rd == b then none else some "mk_dnf(to_dnf):rebuild-equals"),
             (if rc == b then none else some "mk_cnf(to_cnf):rebuild-equals") ]
-      let fail := firstFail (semFail ++ [bitsFail bits
+      let fail := firstFail (semFail ++ (if !canonB && (od.isNone || oc.isNone) then [] else [bitsFail bits
         [("dnf-clauses-implicants", true), ("cnf-clauses-implied", true),
-         ("mk_dnf(to_dnf)==b", canonB), ("mk_cnf(to_cnf)==b", canonB)]])
+         ("mk_dnf(to_dnf)==b", canonB), ("mk_cnf(to_cnf)==b", canonB)]]))
       { agree := model == " ".intercalate [dnf, cnf, rd, rc, bits], model, fail, nontrivial := A.size > 2,
         tags := [key, s!"n{if n ≤ maxTT then toString n else if n < 54 then "14-53" else if n ≤ 130 then "54-130" else "131+"}",
           if canonB then "canonical" else "noncanonical"] ++ (if n > maxTT then ["wide"] else []) ++
@@ -300,8 +307,7 @@ def handle (key : String) (ins obs : List String) : Verdict :=
       let semFail : List (Option String) :=
         if n ≤ maxTT then
           let tb := ttOf A n
-          if expectOptPanic A n tb then
-            [if dnf == "panic" then none else some "to_optimized_dnf:no-panic-on-spurious-support"]
+          if !canonB && od.isNone then []   -- outside the quantifier (rebuild == b cannot hold): agreement only
           else
           [ (match od with
               | none => some "to_optimized_dnf:panic"
@@ -321,12 +327,19 @@ def handle (key : String) (ins obs : List String) : Verdict :=
                   if showOutArr (mkDnf n cs) == b then none else some "to_optimized_dnf:function"]),
             (if rd == b then none else some "mk_dnf(to_optimized_dnf):rebuild-equals") ]
       let refuses := n ≤ maxTT && expectOptPanic A n (ttOf A n)
-      let fail := firstFail (semFail ++ (if refuses then [] else [bitsFail bits
+      let fail := firstFail (semFail ++ (if !canonB && od.isNone then [] else [bitsFail bits
         [("optimized-clauses-implicants", true), ("mk_dnf(to_optimized_dnf)==b", canonB)]]))
       { agree := model == " ".intercalate [dnf, rd, bits], model, fail, nontrivial := A.size > 2,
         tags := [key, s!"n{if n ≤ maxTT then toString n else if n < 54 then "14-53" else if n ≤ 130 then "54-130" else "131+"}"] ++
           (if n > maxTT then ["wide"] else []) ++ (if canonB then [] else ["noncanonical"]) ++
           (if refuses then ["opt-refuses"] else []) ++ [sizeTag (od.getD []).length] }
+    | none => Verdict.bad "args"
+  | "C10.ext", [b], ["hang"] | "C10.opt", [b], ["hang"] =>
+    -- the call did not return: a failure on a canonical operand, a plain disagreement on any other array
+    match parseArr? b with
+    | some A =>
+      { agree := false, model := "returns", fail := if isCanon A then some "outcome:hang" else none,
+        nontrivial := A.size > 2, tags := [key, "hang"] }
     | none => Verdict.bad "args"
   | _, _, _ => Verdict.bad ("key " ++ key)
 
